@@ -13,6 +13,7 @@ import (
 	"verif/mc/sys/gcounter"
 	"verif/mc/sys/gotests"
 	"verif/mc/sys/loadbalancer"
+	"verif/mc/sys/nestedcrdtimpl"
 	"verif/mc/sys/proxy"
 	"verif/mc/sys/shcounter"
 	"verif/mc/sys/shopcart"
@@ -49,6 +50,20 @@ func retranslate(srcRel, module, root string, extra map[string]string) func(dir 
 		return root, nil
 	}
 }
+
+// mcNested instantiates NestedCRDTImpl's operator constants as a G-Counter over RESOURCE_IDS (the same
+// definitions as verif/mc/sys/nestedcrdtimpl).
+const mcNested = `---- MODULE MCNested ----
+EXTENDS NestedCRDTImpl
+MCZero == [r \in RESOURCE_IDS |-> 0]
+MCMax(a, b) == IF a > b THEN a ELSE b
+MCCombine(a, b) == [k \in DOMAIN a |-> MCMax(a[k], b[k])]
+MCUpdate(s, st, v) == [st EXCEPT ![s] = @ + v]
+RECURSIVE MCSum(_, _)
+MCSum(f, d) == IF d = {} THEN 0 ELSE LET x == CHOOSE x \in d : TRUE IN f[x] + MCSum(f, d \ {x})
+MCView(st) == MCSum(st, DOMAIN st)
+====
+`
 
 func tlaBool(b bool) string {
 	if b {
@@ -166,6 +181,37 @@ func morePairs() []*pair {
 			Sys: func() *ss.System { return shopcart.New(cfg) }, ScalarArch: map[string]bool{"UpdateCRDT": true},
 		})
 	}
+	// ---- nestedcrdtimpl (translation current; ACRDTResource generated, Node process transcribed) ----
+	for _, c := range []struct {
+		n, ops, buf int
+		quick       bool
+	}{{1, 2, 1, false}, {2, 1, 1, false}, {2, 2, 1, false}} {
+		cfg := nestedcrdtimpl.Config{NumNodes: c.n, NumOps: c.ops, BufferSize: c.buf}
+		var ids []string
+		for i := 1; i <= c.n; i++ {
+			ids = append(ids, fmt.Sprint(i))
+		}
+		cfgTxt := fmt.Sprintf("CONSTANT defaultInitValue = defaultInitValue\nCONSTANT BUFFER_SIZE = %d\nCONSTANT NUM_OPS = %d\nCONSTANT NODE_IDS = {%s}\nCONSTANT EMPTY_CELL = EMPTY_CELL\n", c.buf, c.ops, strings.Join(ids, ", ")) +
+			"CONSTANT ZERO_VALUE <- MCZero\nCONSTANT COMBINE_FN <- MCCombine\nCONSTANT UPDATE_FN <- MCUpdate\nCONSTANT VIEW_FN <- MCView\n"
+		for _, k := range []string{"READ", "WRITE", "ABORT", "PRECOMMIT", "COMMIT"} {
+			cfgTxt += fmt.Sprintf("CONSTANT %s_REQ = \"%s_req\"\nCONSTANT %s_ACK = \"%s_ack\"\n", k, strings.ToLower(k), k, strings.ToLower(k))
+		}
+		out = append(out, &pair{
+			Name: fmt.Sprintf("nestedcrdtimpl-N%d-O%d-B%d", c.n, c.ops, c.buf), SpecDir: "systems/nestedcrdtimpl", Module: "NestedCRDTImpl", Quick: c.quick,
+			Prepare: func(dir string) (string, error) {
+				src, err := os.ReadFile(filepath.Join(repo(), "systems/nestedcrdtimpl/NestedCRDTImpl.tla"))
+				if err != nil {
+					return "", err
+				}
+				if err := os.WriteFile(filepath.Join(dir, "NestedCRDTImpl.tla"), src, 0o644); err != nil {
+					return "", err
+				}
+				return "MCNested", os.WriteFile(filepath.Join(dir, "MCNested.tla"), []byte(mcNested), 0o644)
+			},
+			Cfg: cfgTxt + "SPECIFICATION Spec\n", Sys: func() *ss.System { return nestedcrdtimpl.New(cfg) },
+		})
+	}
+
 	// ---- compiler test programs: X.tla.expectpcal (the PlusCal PGo must emit) translated by pcal ----
 	const gen = "pgo/test/files/general/"
 	dflt := "CONSTANT defaultInitValue = defaultInitValue\n"
@@ -175,13 +221,9 @@ func morePairs() []*pair {
 				"MChello.tla": "---- MODULE MChello ----\nEXTENDS hello\nMCMkHello(a, b) == a \\o b\n====\n"}),
 			Cfg: dflt + "CONSTANT MK_HELLO <- MCMkHello\nSPECIFICATION Spec\n",
 			Sys: gotests.Hello, ScalarArch: map[string]bool{"AHello": true}},
-		// procedure `inc`: the spec's stack / parameter variables have no comparable Go image (C04 covers
-		// call/return); pc, value and out are compared.
-		&pair{Name: "gotests-bug_119", SpecDir: gen, Module: "test", Quick: true,
-			Prepare: retranslate(gen+"bug_119.tla.expectpcal", "test", "", nil),
-			Cfg:     dflt + "SPECIFICATION Spec\n",
-			Sys:     gotests.Bug119, ScalarArch: map[string]bool{"Counter": true},
-			Rename: map[string]string{"inc.self_": "-", "inc.counter": "-"}, SkipSpecVars: []string{"stack", "self_"}},
+		// bug_119 (procedure `inc`, `process (Server = "1")`): not comparable - the installed pcal leaves `self`
+		// unsubstituted in the call argument of a single-process `call inc0(self)`, so SANY rejects the
+		// translation of bug_119.tla.expectpcal ("Unknown operator: self"); call/return is covered by C04.
 		&pair{Name: "gotests-bug2_124", SpecDir: gen, Module: "bug2", Quick: true,
 			Prepare: retranslate(gen+"bug2_124.tla.expectpcal", "bug2", "", nil),
 			Cfg:     dflt + "CONSTANT NUM_NODES = 2\nCONSTANT BUFFER_SIZE = 1\nSPECIFICATION Spec\n",
